@@ -290,7 +290,20 @@ class C06(ScanProperty):
                 ops.append(['peek', rng.randint(1, 3)])
             else:
                 ops.append(['current_mode'])
-        return {'modes': modes, 'input': inp, 'ops': ops}
+        c = {'modes': modes, 'input': inp, 'ops': ops}
+        if rng.random() < 0.5:
+            # the same mode names and patterns with OTHER transition tables were built through the cache before
+            # (in this process): the scanner under test must still switch by its own tables
+            pre = []
+            for _ in range(rng.randint(1, 2)):
+                v = json.loads(json.dumps(modes))
+                for m in v:
+                    types = sorted(p['t'] for p in m['patterns'])
+                    m['transitions'] = [[t, rng.randrange(nm)] for t in types if rng.random() < 0.5]
+                pre.append(v)
+            c['prebuild'] = pre
+            c['cached'] = True
+        return c
 
     def gen_case(self, rng, i):
         if i % 3 == 2:
@@ -435,6 +448,15 @@ class C11(ScanProperty):
                 ops.append(['set_mode', rng.randrange(len(modes))])
             ops.append(['peek', n])
             ops.append(['current_mode'])
+            if rng.random() < 0.4:
+                # a peek changes nothing about ANY later call, a later peek included: the same peek again, directly or
+                # after the only things that may change its answer (mode, position), must be computed afresh
+                r = rng.random()
+                if r < 0.45 and len(modes) > 1:
+                    ops.append(['set_mode', rng.randrange(len(modes))])
+                elif r < 0.7:
+                    ops.append(['set_offset', rng.choice(bs)])
+                ops.append(['peek', n if rng.random() < 0.8 else rng.randint(0, 6)])
             ops += [['next']] * rng.randint(0, n)
         return {'modes': modes, 'input': inp, 'ops': ops}
 
